@@ -15,6 +15,7 @@ from dst.storage import builder
 from dst.storage.simfile import Budget, IoSeam, ReadBudgetExceeded
 
 ID = "C01"
+RUN_WALL_S = 90    # per-run wall-clock alarm for loops that perform no I/O (see core.guarded)
 LEVEL = "exploration"
 RUNS = {"quick": 12000, "thorough": 200000}
 CHUNK = {"quick": 40, "thorough": 200}
